@@ -79,7 +79,23 @@ func (p *poisonHandler) ServeHTTP(w http.ResponseWriter, r *http.Request) {
 
 func servePoison(mw *cors.Middleware, q Req) {
 	w := newRW()
-	mw.Wrap(&poisonHandler{}).ServeHTTP(w, q.httpReq())
+	w.inner = &poisonHandler{}
+	wrappedOnce(mw).ServeHTTP(w, q.httpReq())
+}
+
+// poisonRound sends the non-preflight request kinds through mw with a wrapped handler that overwrites, in place,
+// every header slice it can reach. On code that satisfies C12 this changes nothing; checks of other properties call
+// it before their own observations so that shared state installed on handler-visible paths shows up there too.
+func poisonRound(mw *cors.Middleware, allowedOrigin string) {
+	for _, q := range []Req{
+		buildReq("GET", nil, nil, nil, nil, nil),
+		buildReq("OPTIONS", nil, nil, nil, nil, nil),
+		actualReq("GET", allowedOrigin),
+		actualReq("OPTIONS", allowedOrigin),
+		actualReq("POST", "https://never-allowed.invalid"),
+	} {
+		servePoison(mw, q)
+	}
 }
 
 type c12World struct {
